@@ -110,6 +110,10 @@ fn edits(base: &Value) -> Vec<Edit> {
         }
         out.push(Edit::Field(leaf.clone(), Mutn::Plus1));
         out.push(Edit::Field(leaf.clone(), Mutn::Zero));
+        // values that differ only in high bits (numbers: +2^32 / +2^48 / +2^62; felts: +2^160 / +2^248 / +2^250)
+        for k in [160u32, 248, 250] {
+            out.push(Edit::Field(leaf.clone(), Mutn::HighBit(k)));
+        }
         out.push(Edit::SwapNext(leaf));
     }
     let n_cells = base["main_page"].as_array().map(|a| a.len()).unwrap_or(0);
@@ -196,7 +200,7 @@ pub fn run(ctx: &Ctx) -> Report {
         "C13",
         "exploration",
         "public inputs = honest ones of this Stone version + synthetic small ones (0/1/3 main-page cells, 0-2 continuous-page \
-         headers, dynamic parameters present/absent), each with every single-field edit (+1, 0/1, swap with the same field of the \
+         headers, dynamic parameters present/absent), each with every single-field edit (+1, 0/1, + a high power of two, swap with the same field of the \
          next vector element), main-page cell insertion at every position / deletion / adjacent transposition, header insertion / \
          deletion, friendly-layer count +-1 (Stone 6); oracle: over the WHOLE explored set, unequal inputs (header `prod` excluded) \
          have pairwise different digests and equal inputs equal digests; honest digests reproduce the prover's first challenge. \
